@@ -358,7 +358,7 @@ def rule_merge(ctx, rep):
 
 def rule_allsources(ctx, rep, rid="R-C03-allsources"):
     r = rep.rule(rid, "resolve_types merges every source library: in the loop over the sources Library::extend is executed on every iteration "
-                      "(no path skips a library)", floor=1)
+                      "(no path skips a library); Library::extend appends other.elements wholesale", floor=2)
     rb = ctx.prog.get("ironplc_analyzer::stages::resolve_types")
     if not rb:
         rep.error(rid, "resolve_types not found")
@@ -380,10 +380,53 @@ def rule_allsources(ctx, rep, rid="R-C03-allsources"):
                 # from the Some edge, can we get back to the loop's next() without passing the extend block?
                 back = b.reachable(succ, avoid={ext[0].bb})
                 ok = loop_next.bb not in back
+    rule_extend_whole(ctx, r)
     if ok:
         r.ok("resolve_types|every iteration extends", loc_str(b.f, ext[0].loc))
     else:
         r.finding("resolve_types|skippable-source", loc_str(b.f, ext[0].loc), "an iteration of the loop over the sources can continue without merging that library: its declarations (and its errors) vanish")
+
+
+FILTERING = {"filter", "filter_map", "retain", "retain_mut", "dedup", "dedup_by", "dedup_by_key", "take", "skip", "take_while", "skip_while",
+             "step_by", "contains", "truncate", "drain", "split_off", "find", "position"}
+
+
+def rule_extend_whole(ctx, r):
+    """Library::extend hands over every element of `other`: one append whose source is other.elements itself, no filtering adaptor."""
+    bs = ctx.prog.get("ironplc_dsl::common::Library::extend")
+    if not bs:
+        r.finding("Library::extend|missing", None, "Library::extend not found")
+        return
+    b = bs[0]
+    where = "%s:%d" % (b.f["file"], b.f["line"])
+    bodies = [b] + [cb for cb in ctx.prog.bodies.values() if cb.f["dk"] == "Closure" and cb.f.get("parent") == b.id]
+    filt = sorted({(c.callee or c.u or "").split("::")[-1] for bd in bodies for c in bd.calls()} & FILTERING)
+    whole = False
+    for c in b.calls():
+        nm = (c.callee or c.u or "").split("::")[-1]
+        if nm not in ("extend", "append") or len(c.args) < 2:
+            continue
+        rp, ap = op_place(c.args[0]), op_place(c.args[1])
+        if rp is None or ap is None:
+            continue
+        rr, ar = b.root(rp), b.root(ap)
+        # follow one into_iter()/iter() call on the argument
+        if ar[0] > b.f["argc"]:
+            d = b.single_def(ar[0])
+            if d and d[0] == "call" and (d[2].callee or d[2].u or "").split("::")[-1] in ("into_iter", "iter", "drain") and d[2].args:
+                p2 = op_place(d[2].args[0])
+                if p2 is not None:
+                    ar = b.root(p2)
+        rf = [x[2] for x in rr[1] if isinstance(x, list) and x[0] == "f"]
+        af = [x[2] for x in ar[1] if isinstance(x, list) and x[0] == "f"]
+        if rr[0] == 1 and ar[0] == 2 and rf == ["elements"] and af == ["elements"] and c.bb in b.dominators().get(b.returns()[0] if b.returns() else c.bb, {c.bb}):
+            whole = True
+    if filt:
+        r.finding("Library::extend|filters:" + ",".join(filt), where, "Library::extend inspects/filters the incoming elements (%s): declarations of a later source can be dropped before the duplicate check sees them" % ", ".join(filt))
+    elif not whole:
+        r.finding("Library::extend|not-wholesale", where, "no unconditional self.elements.extend/append(other.elements) found")
+    else:
+        r.ok("Library::extend|appends other.elements wholesale", where)
 
 
 def rule_first(ctx, rep):
